@@ -9,16 +9,17 @@ LEVEL_TEXT = "Bounded model checking over all fault schedules of each unit (ever
 LEVEL_NOTE = "; ".join(ASSUMPTIONS)
 
 
-def unit(name, n, extra=(), unwind=8, uf=None, desc="", timeout=600, flags=()):
+def unit(name, n, extra=(), unwind=8, uf=None, desc="", timeout=600, flags=(), mem_gb=12, solver=None):
     return Harness(name="H1_" + name, src="c16/units.c", defines=["-DVF_UNIT=%d" % n] + list(extra), unwind=unwind, unwind_funcs=uf or {},
-                   timeout=timeout, flags=list(flags), desc=desc, leak_check=True,
+                   timeout=timeout, flags=list(flags), desc=desc, leak_check=True, mem_gb=mem_gb, **({"solver": solver} if solver else {}),
                    bounds="every allocation of the unit may fail independently", functions=[desc])
 
 
 def harnesses(ctx, tier):
     hs = [
         unit("arena", 1, uf={"memcmp": 13, "vf_fill": 13, "_yr_arena_allocate_memory": 6, "yr_arena_release": 6}, desc="arena.c: create, allocate_struct, write_data x2 (growth), make_ptr_relocatable, release"),
-        unit("notebook", 2, desc="notebook.c: create, 3 allocations across pages, destroy"),
+        unit("notebook", 2, unwind=5, mem_gb=16, desc="notebook.c: create, up to 3 allocations across pages (stop at the first failure), destroy"),
+        unit("notebook_continue", 2, ["-DVF_CONTINUE_AFTER_FAILURE"], unwind=5, mem_gb=16, desc="notebook.c: create, 3 allocations across pages continuing after a failed one, destroy"),
         unit("stack", 3, desc="stack.c: create, 3 pushes with growth, pops, destroy"),
         unit("hash", 4, uf={"strlen": 4, "strcmp": 4, "hash": 4, "yr_hash": 4, "_yr_hash_table_lookup": 4, "yr_hash_table_clean": 4, "memcmp": 4}, desc="hash.c: create, add (with/without namespace), lookup, destroy"),
         unit("atoms_ascii_wide", 5, ["-DVF_FLAGS=(STRING_FLAGS_ASCII|STRING_FLAGS_WIDE)"], desc="atoms.c: yr_atoms_extract_from_string ascii|wide"),
